@@ -23,7 +23,8 @@ def base_family(rng):
     for s in sizes:
         parts_ids.append(sorted(pool[k:k + s]))
         k += s
-    cargs = rng.choice([None, 1, 2])
+    # constructor arguments incl. pairs with equal builtin hash(): hash(-1) == hash(-2), hash(n) == hash(n + 2**61 - 1)
+    cargs = rng.choice([None, 1, 2, -1, 3, 'a'])
 
     def mk(parts_ids, fx=None, carg=cargs, wire=None):
         parts = []
@@ -36,7 +37,7 @@ def base_family(rng):
         d = {'k': 'merge', 'parts': parts} if len(parts) > 1 or rng_merge else parts[0]
         layers = [d]
         if carg is not None:
-            layers.append({'k': 'transform', 'cls': f'T{carg}', 'fields': {'x': {'args': ['x', '_k'], 'f': 'T.x'}}, 'params': {},
+            layers.append({'k': 'transform', 'cls': 'T', 'fields': {'x': {'args': ['x', '_k'], 'f': 'T.x'}}, 'params': {},
                            'cargs': {'k': carg}, 'defaults': {}, 'inherit': True})
         return {'k': 'chain', 'flavour': 'chain', 'layers': layers}, (wire or ['x'])
     rng_same = rng.random() < 0.5       # all parts compute x with the same function: only the routing distinguishes them
@@ -57,7 +58,10 @@ def base_family(rng):
             variants.append(('shift',) + mk([sorted(s) for s in shifted]))
     variants.append(('function',) + mk(parts_ids, fx='P.x#2'))
     if cargs is not None:
-        variants.append(('argument',) + mk(parts_ids, carg=cargs + 5))
+        # the same Transform class (shared edge objects), another instance argument
+        other = {1: 6, 2: 7, -1: -2, 3: 3 + 2 ** 61 - 1, 'a': 'b'}[cargs]
+        variants.append(('argument',) + mk(parts_ids, carg=other))
+        variants.append(('argument-type',) + mk(parts_ids, carg={1: '1', 2: 2.5, -1: -1.5, 3: None, 'a': ('a',)}[cargs]))
     variants.append(('predicate-args',) + mk(parts_ids, wire=['y']))
     variants.append(('predicate-args2',) + mk(parts_ids, wire=['x', 'y']))
     variants.append(('same',) + mk(parts_ids))        # a rebuild: must agree with `base`
